@@ -88,6 +88,15 @@ def run(tier):
         res = progs.run_programs(check, wp, family, behs, table, core.seed(), ["none"], progs.VERS[family][:1])
         classify(check, res, table)
         check.cov["exhaustive_expressions_%s" % family] = len(behs)
+        if tier == "quick":
+            # every pair (and chain of three) of operators, with variables as the only atoms: precedence and
+            # associativity are decided on pairs, so the quick tier covers all of them too
+            pair = [i for i in exprset(table) if i != "ScalarLnumber"]
+            table, behs = syntax.generate(check, family, rootcat="stmt", rootmax=1, depth=4, allowed=pair,
+                                          exhaustive=True, maxchoices=7, timeout=1500)
+            res = progs.run_programs(check, wp, family, behs, table, core.seed(), ["none"], progs.VERS[family][:1])
+            classify(check, res, table)
+            check.cov["exhaustive_operator_pairs_%s" % family] = len(behs)
     check.cov["variants_never_generated"] = uncovered
     # version gating: PHP 7-only syntax must be reported under 5.x
     table, behs = syntax.generate(check, "7", num=n, seed=core.seed() + 7, depth=3)
